@@ -218,7 +218,9 @@ func Rename(site, oldp, newp string) error {
 	}
 	if torn > 0 {
 		if torn >= 500 {
-			_ = os.Rename(oldp, newp)
+			if os.Rename(oldp, newp) == nil {
+				fsDone(s, op, nil) // the rename is atomic: it happened, then the process died
+			}
 		}
 		fsDie(s, op)
 		return ErrNodeDead
